@@ -101,12 +101,10 @@ class TlcResult:
         self.prints = []
 
     def printed(self, tag):
-        """Values printed by PrintT(<<"TAG", ...>>), returned as raw text after the tag."""
+        """Values printed by PrintT(<<"TAG", ...>>) (TLC pretty-prints long tuples over several lines)."""
         res = []
-        pat = '<<"%s"' % tag
-        for line in self.out.splitlines():
-            if line.startswith(pat):
-                res.append(line)
+        for m in re.finditer(r'^<<\s*"%s"[^\n]*' % tag, self.out, re.M):
+            res.append(m.group(0))
         return res
 
     def coverage(self):
@@ -193,11 +191,11 @@ class TvResult:
     def __init__(self, res, nlines):
         self.res = res
         self.nlines = nlines
-        self.accepted = ('<<"ACCEPTED"' in res.out) and not ('<<"REJECTED"' in res.out)
+        self.accepted = bool(re.search(r'<<\s*"ACCEPTED"', res.out)) and not re.search(r'<<\s*"REJECTED"', res.out)
         self.chkfails = res.printed("CHKFAIL")
         self.drifts = res.printed("DRIFT")
         self.rejected_at = None
-        m = re.search(r'<<"REJECTED", (\d+)', res.out)
+        m = re.search(r'<<\s*"REJECTED",\s*(\d+)', res.out)
         if m:
             self.rejected_at = int(m.group(1))
         self.tool_problem = None
